@@ -286,6 +286,9 @@ func (p *partition) BuildReplicaForFollower(leader, replica models.NodeID) error
 
 // StartReplica iterates over all replicators and copies data.
 func (p *partition) StartReplica() {
+	if verifStepwise() {
+		return
+	}
 	if p.running.CompareAndSwap(false, true) {
 		go p.replicaLoop()
 	}
